@@ -1051,6 +1051,13 @@ C12_SPECIAL += [
     ("empty_where_enum", ALL7, "pub enum T<'l, G, const N: usize> where { A(G, [u8; N]), B { r: &'l G }, C }",
      _twin_body(["T::A(1u8, [2u8])", "T::A(1u8, [3u8])", "T::B { r: &7u8 }", "T::C"])),
     ("where_trailing_comma_only_lifetime", ALL7, "pub struct T<'l, G: 'l>(pub &'l G, pub u8) where 'l: 'l,;", _twin_body(["T::<u8>(&1, 2)", "T::<u8>(&1, 3)", "T::<u8>(&0, 9)"])),
+    # a wrapper named like the type it wraps (last path segment = the item's own name): an ordinary, non-recursive item
+    ("samename_vec", ALL7, "pub struct Vec<G>(pub ::std::vec::Vec<G>, pub u8);", _twin_body(["Vec::<u8>(vec![1], 2)", "Vec::<u8>(vec![1], 3)", "Vec::<u8>(vec![], 9)"])),
+    ("samename_option_enum", ALL7, "pub enum Option<G> { None, Some(::core::option::Option<G>) }",
+     _twin_body(["Option::<u8>::None", "Option::<u8>::Some(::core::option::Option::Some(1))", "Option::<u8>::Some(::core::option::Option::None)"])),
+    ("samename_assoc", ["Clone", "Debug", "PartialEq"], "pub struct Item<I: ::core::iter::Iterator> { pub index: usize, pub value: I::Item }", "COMPILE_ONLY"),
+    ("samename_module_path", ALL8, "pub mod raw { #[derive(Clone, Debug, Default, PartialEq, Eq, PartialOrd, Ord, Hash)] pub struct T<G>(pub G); } @HEAD@ pub struct T<G> { pub inner: raw::T<G>, pub n: u8 }",
+     _twin_body(["T::<u8> { inner: dx::raw::T(1), n: 2 }", "T::<u8> { inner: dx::raw::T(1), n: 3 }"]).replace("sd::T::<u8> { inner: dx::raw::T", "sd::T::<u8> { inner: sd::raw::T")),
     # more than ten fields (positions "10", "11" sort before "2" as text)
     ("wide_tuple_struct", ALL8, 'pub struct T(pub u8, pub u8, pub u8, pub u8, pub u8, pub u8, pub u8, pub u8, pub u8, pub u8, pub u8, pub u8, pub u8);', _twin_body(['T(0, 1, 2, 3, 4, 5, 6, 7, 8, 9, 10, 11, 12)', 'T(0, 1, 9, 3, 4, 5, 6, 7, 8, 2, 10, 11, 12)', 'T(0, 1, 2, 3, 4, 5, 6, 7, 8, 9, 11, 10, 12)', 'T(12, 11, 10, 9, 8, 7, 6, 5, 4, 3, 2, 1, 0)'])),
     ("wide_named_struct", ALL8, 'pub struct T { pub f0: u8, pub f1: u8, pub f2: u8, pub f3: u8, pub f4: u8, pub f5: u8, pub f6: u8, pub f7: u8, pub f8: u8, pub f9: u8, pub f10: u8, pub f11: u8 }', _twin_body(['T { f0: 0, f1: 1, f2: 2, f3: 3, f4: 4, f5: 5, f6: 6, f7: 7, f8: 8, f9: 9, f10: 10, f11: 11 }', 'T { f0: 0, f1: 1, f2: 9, f3: 3, f4: 4, f5: 5, f6: 6, f7: 7, f8: 8, f9: 2, f10: 10, f11: 11 }', 'T { f0: 0, f1: 1, f2: 2, f3: 3, f4: 4, f5: 5, f6: 6, f7: 7, f8: 8, f9: 9, f10: 11, f11: 10 }', 'T { f0: 11, f1: 10, f2: 9, f3: 8, f4: 7, f5: 6, f6: 5, f7: 4, f8: 3, f9: 2, f10: 1, f11: 0 }'])),
